@@ -440,3 +440,118 @@ def o14_6_confirm(v, out):
     stored entry is looked up through Table::get (filter on)."""
     if out.get('_rc') != 0: return (False, 'native run failed: %s' % out.get('_stderr', '')[-300:])
     return (out.get('missing', '0') != '0', 'native: %s stored entries reported absent (first: %s)' % (out.get('missing'), out.get('first_missing')))
+
+
+def o14_7_finalize(mir, tier):
+    """TableBuilder::finalize with the block builders, flush_data_block, emit_block_to_disk, write_block (their contracts are O14.3)
+    and the footer codec by contract (events; every fallible step free to fail).  Reference: the pending block is flushed first;
+    it gets an index entry iff the flush returned a handle - with that handle and with the InternalKey-level shortest successor
+    of the last key added (O13.1 shows it is >= that key; a key built any other way may sort before the last entry); then, in
+    this order, the filter block (handle = offset before the write, length of its contents), the metaindex block (one entry:
+    filter block name -> that handle), the index block and the footer (metaindex handle, index handle as returned by the writes);
+    Ok iff every step succeeded; the builder is closed."""
+    from ..ob import World
+    fn = mir.method('TableBuilder', 'finalize')
+    res = Result('O14.7 TableBuilder::finalize', [fn.path], 'pending block flushed to a handle / nothing / error (free); every write free to fail; offsets and lengths free (< 2^40)')
+    t0 = time.time()
+    w = World(mir); last = w.key('last_key')
+    fl = BitVec('flush_outcome', 8); okb = {n: Bool(n + '_ok') for n in ('filter_write', 'metaindex_write', 'index_write', 'footer_encode', 'footer_write')}
+    off0, flen = BitVec('offset_before_filter', 64), BitVec('filter_len', 64)
+    pre = list(w.pre) + [ULE(fl, BitVecVal(2, 8)), ULT(off0, bv(1 << 40)), ULT(flen, bv(1 << 40))]
+    S = lib.std_summaries(); P = S['$patterns']
+    def ev(env, e):
+        st = dict(env['$state']); st['events'] = st['events'] + [e]; env['$state'] = st; return st
+    def P_(se, env, v):
+        v = se.deref(env, v) if isinstance(v, Ref) else v
+        while isinstance(v, Ref): v = se.deref(env, v)
+        return v
+    hf = mir.struct_fields('BlockHandle'); tf = mir.struct_fields('TableBuilder')
+    H = lambda name: mir.mk_struct('BlockHandle', offset=BitVec(name + '_off', 64), size=BitVec(name + '_size', 64))
+    def flush(se, env, pc, tb):
+        st = ev(env, ('flush',))
+        return [(fl == 0, Enum('Ok', (Enum('Some', (H('data'),)),)), st), (fl == 1, Enum('Ok', (Enum('None'),)), st), (fl == 2, Enum('Err', (Enum('IO', (Opaque('e'),), 'BuilderError'),)), st)]
+    P[r'TableBuilder::flush_data_block'] = flush
+    P[r'<&?InternalKey as BinarySeparable>::find_shortest_successor'] = lambda se, env, pc, k: lib.one(env, {'ikey_successor_of': P_(se, env, k)})
+    P[r'<(?:\[u8\]|&\[u8\]|Vec<u8>|&Vec<u8>) as BinarySeparable>::find_shortest_successor'] = lambda se, env, pc, k: lib.one(env, {'bytes_successor_of': P_(se, env, k)})
+    P[r'<InternalKey as TryFrom<Vec<u8>>>::try_from'] = lambda se, env, pc, v: lib.one(env, Enum('Ok', (v,)))
+    P[r'InternalKey::new_for_seeking'] = lambda se, env, pc, uk, seq: lib.one(env, {'seek_key': (uk, seq)})
+    P[r'InternalKey::new'] = lambda se, env, pc, uk, seq, op: lib.one(env, {'built_key': (uk, seq, op)})
+    uk = mir.field('InternalKey', 'user_key')
+    P[r'InternalKey::get_user_key'] = lambda se, env, pc, k: lib.one(env, P_(se, env, k)[uk])
+    P[r'Rc::new'] = lib.ident; P[r'<Rc<.*> as Clone>::clone'] = lib.ident; P[r'Rc::clone'] = lib.ident
+    P[r'<Rc<.*> as (?:Deref|AsRef<.*>)>::(?:deref|as_ref)'] = lib.ptr_deref
+    P[r'<Vec<u8> as From<&BlockHandle>>::from'] = lambda se, env, pc, h: lib.one(env, {'encoded_handle': P_(se, env, h)})
+    P[r'<Vec<u8> as Deref>::deref'] = lib.ident
+    def badd(se, env, pc, b, key, val):
+        st = ev(env, (P_(se, env, b).get('__which', '?') + '.add_entry', P_(se, env, key), P_(se, env, val))); return [(None, (), st)]
+    P[r'BlockBuilder::add_entry'] = badd
+    P[r'BlockBuilder::new'] = lambda se, env, pc, ri: lib.one(env, {'abstract': True, '__ty': 'BlockBuilder', '__which': 'metaindex'})
+    P[r'BlockBuilder::finalize'] = lambda se, env, pc, b: lib.one(env, {'len': BitVec(P_(se, env, b).get('__which', 'x') + '_len', 64), 'kind': P_(se, env, b).get('__which', '?') + ' block', 'off': bv(0)})
+    P[r'BlockBuilder::reset'] = lib.unit
+    P[r'FilterBlockBuilder::finalize'] = lambda se, env, pc, f: lib.one(env, {'len': flen, 'kind': 'filter block', 'off': bv(0)})
+    def emit(se, env, pc, tb, contents, comp):
+        c = P_(se, env, contents); st = ev(env, ('emit', c.get('kind'), P_(se, env, tb)[tf.index('current_offset')]))
+        t = dict(P_(se, env, tb)); t[tf.index('current_offset')] = t[tf.index('current_offset')] + c['len'] + bv(5)
+        return [(okb['filter_write'], Enum('Ok', ((),)), st, [(Ref('$tb'), t)]), (Not(okb['filter_write']), Enum('Err', (Enum('IO', (Opaque('e'),), 'BuilderError'),)), st)]
+    P[r'TableBuilder::emit_block_to_disk'] = emit
+    def wblock(se, env, pc, tb, contents):
+        c = P_(se, env, contents); kind = c.get('kind', '?'); st = ev(env, ('write_block', kind))
+        name = 'metaindex_write' if kind.startswith('metaindex') else 'index_write'
+        return [(okb[name], Enum('Ok', (H(kind.split()[0] + '_written'),)), st), (Not(okb[name]), Enum('Err', (Enum('IO', (Opaque('e'),), 'BuilderError'),)), st)]
+    P[r'TableBuilder::write_block'] = wblock
+    P[r'DbOptions::filter_policy'] = lambda se, env, pc, o: lib.one(env, 'policy')
+    P[r'(?:filter_policy::)?get_filter_block_name'] = lambda se, env, pc, p: lib.one(env, {'str': 'filter.<policy name>'})
+    P[r'MetaIndexKey::new'] = lib.ident
+    P[r'<Vec<u8> as TryFrom<&Footer>>::try_from'] = lambda se, env, pc, f: [(okb['footer_encode'], Enum('Ok', ({'len': bv(48), 'kind': 'footer', 'footer': P_(se, env, f), 'off': bv(0)},)), env['$state']), (Not(okb['footer_encode']), Enum('Err', (Opaque('footer error'),)), env['$state'])]
+    def wall(se, env, pc, f, data):
+        st = ev(env, ('write_all', P_(se, env, data)))
+        return [(okb['footer_write'], Enum('Ok', ((),)), st), (Not(okb['footer_write']), Enum('Err', ({'kind': 'io', '__ty': 'io::Error'},)), st)]
+    P[r'<Box<dyn RandomAccessFile> as (?:std::io::)?Write>::write_all'] = wall
+    P[r'<BuilderError as From<.*>>::from'] = lambda se, env, pc, e: lib.one(env, Enum('IO', (e,), 'BuilderError'))
+    P[r'<Result<.*> as FromResidual<Result<Infallible, .*>>>::from_residual'] = lambda se, env, pc, r: lib.one(env, r if not (isinstance(r, Enum) and r.tag == 'Err' and not isinstance(r.fields[0], Enum)) else Enum('Err', (Enum('IO', (r.fields[0],), 'BuilderError'),)))
+    ex = Exec(mir, S, loop_bound=4, opaque_calls_ok=True)
+    mff = mir.struct_fields('Footer')
+    def k(ret, env, pc):
+        evs = env['$state']['events']; kinds = [e[0] + (':' + str(e[1]) if e[0] in ('emit', 'write_block') else '') for e in evs]
+        ok = isinstance(ret, Enum) and ret.tag == 'Ok'
+        tb = ex.deref(env, Ref('$tb'))
+        all_ok = And(fl != 2, *okb.values())
+        posts = [('finalize reports success although a step failed (or fails although every step succeeded)', BoolVal(ok) == all_ok)]
+        ix = [e for e in evs if e[0] == 'index.add_entry']
+        posts.append(('the last data block gets no index entry although it was written (or an index entry is written without a block)', Or(BoolVal(not ok), (fl == 0) == BoolVal(len(ix) == 1))))
+        if len(ix) == 1:
+            key, val = ix[0][1], ix[0][2]
+            good_key = isinstance(key, dict) and 'ikey_successor_of' in key and key['ikey_successor_of'] is ex.deref(env, Ref('$last'))
+            if isinstance(key, dict) and 'ikey_successor_of' in key and not good_key:
+                good_key = str(key['ikey_successor_of']) == str(ex.deref(env, Ref('$last')))
+            posts.append(('the index key of the last data block is not the InternalKey-level successor of the last key added (it may sort before the last entry: lookups of that key miss the block)', BoolVal(bool(good_key))))
+            hnd = val.get('encoded_handle') if isinstance(val, dict) else None
+            posts.append(('the index entry of the last data block does not carry the handle of the flushed block', And(hnd[hf.index('offset')] == BitVec('data_off', 64), hnd[hf.index('size')] == BitVec('data_size', 64)) if hnd else BoolVal(False)))
+        if ok:
+            want = ['flush'] + (['index.add_entry'] if len(ix) == 1 else []) + ['emit:filter block', 'metaindex.add_entry', 'write_block:metaindex block', 'write_block:index block', 'write_all']
+            posts.append(('the parts of the table are not written in the order data block, filter block, metaindex block, index block, footer', BoolVal(kinds == want)))
+            mi = [e for e in evs if e[0] == 'metaindex.add_entry']; em = [e for e in evs if e[0] == 'emit']
+            if len(mi) == 1 and len(em) == 1:
+                hnd = mi[0][2].get('encoded_handle') if isinstance(mi[0][2], dict) else None
+                posts.append(('the metaindex entry does not name the filter block (name of the policy -> offset before the filter block was written, length of its contents)',
+                              And(BoolVal(isinstance(mi[0][1], dict) and mi[0][1].get('str') == 'filter.<policy name>'), hnd[hf.index('offset')] == em[0][2], hnd[hf.index('size')] == flen) if hnd else BoolVal(False)))
+            wa = [e for e in evs if e[0] == 'write_all']
+            if len(wa) == 1 and isinstance(wa[0][1], dict) and 'footer' in wa[0][1]:
+                ft = wa[0][1]['footer']
+                posts.append(('the footer does not carry the handles returned for the metaindex block and the index block', And(ft[mff.index('metaindex_handle')][hf.index('offset')] == BitVec('metaindex_written_off', 64), ft[mff.index('index_handle')][hf.index('offset')] == BitVec('index_written_off', 64),
+                                                                                                                       ft[mff.index('metaindex_handle')][hf.index('size')] == BitVec('metaindex_written_size', 64), ft[mff.index('index_handle')][hf.index('size')] == BitVec('index_written_size', 64))))
+            else: posts.append(('the footer is not written', BoolVal(False)))
+            posts.append(('the builder is not closed after finalize', tb[tf.index('file_closed')] if not isinstance(tb[tf.index('file_closed')], bool) else BoolVal(tb[tf.index('file_closed')])))
+        res.cases['%s: %s' % ('Ok' if ok else 'Err', kinds)] = 1
+        for label, post, m in ex.check_posts(posts, pc):
+            res.violations.append({'label': label, 'events': kinds, 'replay': ['table_edge_keys']})
+    tb = mir.mk_struct('TableBuilder', options={'abstract': True, '__ty': 'DbOptions'}, file_closed=BoolVal(False), file='file', file_number=bv(1), current_offset=off0,
+                       data_block_builder={'abstract': True, '__ty': 'BlockBuilder', '__which': 'data'}, index_block_builder={'abstract': True, '__ty': 'BlockBuilder', '__which': 'index'},
+                       filter_block_builder={'abstract': True, '__ty': 'FilterBlockBuilder'}, num_entries=bv(1), maybe_last_key_added=Enum('Some', (Ref('$last'),)))
+    ex.top(fn, [Ref('$tb')], {'$state': {'events': []}, '$tb': tb, '$last': last}, pre, k)
+    res.absorb(ex)
+    for pcx, msg, where in ex.panics:
+        res.panic_paths += 1; res.violations.append({'label': 'panic path: ' + msg[:80], 'replay': None, 'confirmed_by': {'reproduced': False, 'detail': 'no native scenario'}})
+    res.wall_s = time.time() - t0
+    if res.violations: res.status = 'violation'
+    return res
